@@ -62,6 +62,38 @@ class Walk:
             self.ever.add((tuple(k), tuple(v)))
         self.changed.add(tuple(k))
 
+    def batch(self, ev):
+        """a squash_changes block of two operations, committed or left by an exception"""
+        class Abort(Exception):
+            pass
+
+        ops = [(ev["k1"], ev["v1"]), (ev["k2"], ev["v2"])]
+        try:
+            with self.trie.squash_changes() as b:
+                for k, v in ops:
+                    key = key_of(k)
+                    if tuple(v) == (0, 0):
+                        del b[key]
+                    else:
+                        b[key] = val(*v)
+                if not ev["commit"]:
+                    raise Abort()
+        except Abort:
+            return
+        for k, v in ops:
+            before = self.contents.get(tuple(k))
+            if tuple(v) == (0, 0):
+                self.contents.pop(tuple(k), None)
+            else:
+                self.contents[tuple(k)] = tuple(v)
+        # what is visible afterwards is what counts: keys whose value differs from before the block
+        for k, _ in ops:
+            now = self.contents.get(tuple(k))
+            if now != self.pre_batch.get(tuple(k)):
+                self.changed.add(tuple(k))
+            if now is not None:
+                self.ever.add((tuple(k), now))
+
     def round(self, p, how=0):
         """one round of the documented loop for prefix p; returns (kind, via, node or None)"""
         p = tuple(p)
@@ -113,8 +145,21 @@ def replay_line(obj, ctx, opts):
     out = w.problems
     following = True
     for idx, ev in enumerate(h[1:]):
-        if ev["a"] == "mutate":
-            w.mutate(ev["k"], ev["v"])
+        if ev["a"] in ("mutate", "batch"):
+            try:
+                if ev["a"] == "batch":
+                    w.pre_batch = dict(w.contents)
+                    w.batch(ev)
+                elif w.contents.get(tuple(ev["k"])) == tuple(ev["v"]):
+                    w.trie[key_of(ev["k"])] = val(*ev["v"])   # rewrite with the same value: nothing changes
+                else:
+                    w.mutate(ev["k"], ev["v"])
+            except Exception as exc:  # noqa
+                # a modification of the trie that raises on a complete database is the business of
+                # C01 / C05 / C06; the walk cannot be followed any further
+                out.append(("C01", "modification-raised-during-walk", {"event": ev["a"], "exc": type(exc).__name__,
+                                                                         "msg": str(exc)[:120]}))
+                return out
             continue
         p = tuple(ev["p"])
         # the prefix comes out of the real fog: asking for p itself must give p (it is unexplored)
@@ -188,6 +233,10 @@ def stats(obj, ctx):
         tags.append("round-via-frontier-cache")
     if any(e["a"] == "mutate" for e in h):
         tags.append("mutation-during-walk")
+    if any(e["a"] == "batch" and e["commit"] for e in h):
+        tags.append("committed-batch-during-walk")
+    if any(e["a"] == "batch" and not e["commit"] for e in h):
+        tags.append("aborted-batch-during-walk")
     if not obj["st"]["fog"]:
         tags.append("walk-completed-within-behaviour")
     return tags
